@@ -324,8 +324,9 @@ def hist_ops(steps, ref=False):
     return ops
 
 
-def run_hists(exe, path, opslists, opt, timeout=300):
-    lines = ['I %s %d - | %s' % (path, opt, ' ; '.join(ops)) for ops in opslists]
+def run_hists(exe, path, opslists, opt, timeout=300, far=False):
+    # far: every run but the first (the reference) uses the code allocator whose regions are > 2 GiB apart
+    lines = ['I %s %d%s - | %s' % (path, opt, 'f' if far and i else '', ' ; '.join(ops)) for i, ops in enumerate(opslists)]
     rc, out, err = vlib.run_lines(exe, lines, timeout=timeout)
     joined = []
     for o in out:
@@ -339,8 +340,8 @@ def run_hists(exe, path, opslists, opt, timeout=300):
     return [re.sub(r' g(?= )', '', canon(j)) for j in joined[:len(lines)]]
 
 
-def hist_bad(exe, text, steps, opt, site=None):
-    outs = run_hists(exe, write_prog(text, 'shrink'), [hist_ops(steps, True), hist_ops(steps)], opt, timeout=60)
+def hist_bad(exe, text, steps, opt, site=None, far=False):
+    outs = run_hists(exe, write_prog(text, 'shrink'), [hist_ops(steps, True), hist_ops(steps)], opt, timeout=60, far=far)
     if 'CRASH' in outs[0] or 'ERROR' in outs[0] or 'NOANSWER' in outs[0]:
         return False
     if site is not None:
@@ -348,10 +349,10 @@ def hist_bad(exe, text, steps, opt, site=None):
     return disagree(outs) is not None
 
 
-def shrink_hist(exe, text, steps, opt, site=None):
+def shrink_hist(exe, text, steps, opt, site=None, far=False):
     """drop calls / explicit generations (link steps stay), then removable body lines"""
     idx = [i for i, st in enumerate(steps) if st[0] != 'link']
-    keep = set(vlib.shrink_list(idx, lambda sub: hist_bad(exe, text, [st for i, st in enumerate(steps) if st[0] == 'link' or i in set(sub)], opt, site),
+    keep = set(vlib.shrink_list(idx, lambda sub: hist_bad(exe, text, [st for i, st in enumerate(steps) if st[0] == 'link' or i in set(sub)], opt, site, far),
                                 max_steps=60))
     steps = [st for i, st in enumerate(steps) if st[0] == 'link' or i in keep]
     lines = text.split('\n')
@@ -360,10 +361,10 @@ def shrink_hist(exe, text, steps, opt, site=None):
 
     def fails(k):
         ks = set(k)
-        return hist_bad(exe, '\n'.join(l for i, l in enumerate(lines) if i not in rem_set or i in ks), steps, opt, site)
+        return hist_bad(exe, '\n'.join(l for i, l in enumerate(lines) if i not in rem_set or i in ks), steps, opt, site, far)
     ks = set(vlib.shrink_list(rem, fails, max_steps=300)) if rem else set()
     text2 = '\n'.join(l for i, l in enumerate(lines) if i not in rem_set or i in ks)
-    if not hist_bad(exe, text2, steps, opt, site):
+    if not hist_bad(exe, text2, steps, opt, site, far):
         text2 = text
     return text2, steps
 
@@ -377,13 +378,29 @@ def run_mixed(chk, exe, found_limit=2):
     rng = chk.rng('mixed')
     found = 0
     seen_sites = set()
+    # Every fourth program runs with the code allocator whose regions are > 2 GiB apart (whole-function interfaces only:
+    # lazy-BB is the known finding lazybb-far-code) -- but only when the recorded open witnesses of far-code defects
+    # (corpus/c03_open_far.jsonl: _MIR_get_wrapper's rel32 jump to wrapper_end, fixes/C03-6.patch) pass on the tree under
+    # test; while one still fails the far variant is counted as disabled instead of repeating that defect.
+    far_ok = True
+    fw = os.path.join(vlib.VERIF, 'corpus', 'c03_open_far.jsonl')
+    if os.path.exists(fw):
+        for line in open(fw):
+            if line.strip() and not line.startswith('#'):
+                j = json.loads(line)
+                o = run_prog(exe, write_prog(j['text'], 'openfar'), j['specs'], j['calls'], j['opt'])
+                ok = disagree(o) is None
+                chk.dist('open_far_witness', '%s:%s' % (j['name'], 'passes' if ok else 'still-fails'))
+                far_ok = far_ok and ok
     for k in range(40 if quick else 300):
         prog = G.gen_program(rng, feats=FEATS, mixed=True)
         opt = rng.choice([0, 1, 1, 2, 3])
         path = write_prog(prog['text'], 'mx')
+        far = far_ok and k % 4 == 3
+        chk.dist('mixed_far_allocator', 'far' if far else ('disabled' if k % 4 == 3 else 'near'))
         for _ in range(2):
-            steps = G.gen_mixed_history(rng, prog)
-            outs = run_hists(exe, path, [hist_ops(steps, True), hist_ops(steps)], opt)
+            steps = G.gen_mixed_history(rng, prog, ifaces=('interp', 'lazy', 'lazy', 'gen')) if k % 4 == 3 else G.gen_mixed_history(rng, prog)
+            outs = run_hists(exe, path, [hist_ops(steps, True), hist_ops(steps)], opt, far=far)
             chk.count(('mixed', prog['text'], tuple(map(str, steps)), opt), nontrivial=True)
             chk.dist('iface_runs', 'mixed-history')
             chk.dist('mixed_link_sequence', '>'.join(st[2] for st in steps if st[0] == 'link'))
@@ -400,12 +417,12 @@ def run_mixed(chk, exe, found_limit=2):
                 seen_sites.add(site)
             elif disagree(outs) is None:
                 continue
-            elif not hist_bad(exe, prog['text'], steps, opt) or not hist_bad(exe, prog['text'], steps, opt):
+            elif not hist_bad(exe, prog['text'], steps, opt, None, far) or not hist_bad(exe, prog['text'], steps, opt, None, far):
                 chk.dist('unstable_run', 'mixed-history')   # did not reproduce twice: say so, do not report
                 continue
-            text, steps2 = shrink_hist(exe, prog['text'], steps, opt, site)
-            outs2 = run_hists(exe, write_prog(text, 'final'), [hist_ops(steps2, True), hist_ops(steps2)], opt)
-            rp = dict(kind='ifaces', text=text, steps=[list(st) for st in steps2], opt=opt, outs=outs2, original_features=prog['features'])
+            text, steps2 = shrink_hist(exe, prog['text'], steps, opt, site, far)
+            outs2 = run_hists(exe, write_prog(text, 'final'), [hist_ops(steps2, True), hist_ops(steps2)], opt, far=far)
+            rp = dict(kind='ifaces', text=text, steps=[list(st) for st in steps2], opt=opt, far=far, outs=outs2, original_features=prog['features'])
             if site is not None:
                 if chk.finding('gen-died:' + site, rp, 'the code generator dies in %s at -O%d in a history mixing interfaces across link steps: %s -> %s' % (
                         site, opt, ' ; '.join(hist_ops(steps2))[:300], outs2[1][-120:])):
@@ -413,8 +430,8 @@ def run_mixed(chk, exe, found_limit=2):
             else:
                 found += 1
                 sig = 'ifaces:' + hashlib.sha1((text + '|'.join(hist_ops(steps2))).encode()).hexdigest()[:12]
-                chk.finding(sig, rp, 'a history mixing interfaces across link steps disagrees with its interpreter-only reference: [%s] -> %s   vs   reference -> %s   (opt %d)' % (
-                    ' ; '.join(hist_ops(steps2))[:400], outs2[1][:160], outs2[0][:160], opt))
+                chk.finding(sig, rp, 'a history mixing interfaces across link steps disagrees with its interpreter-only reference: [%s] -> %s   vs   reference -> %s   (opt %d%s)' % (
+                    ' ; '.join(hist_ops(steps2))[:400], outs2[1][:160], outs2[0][:160], opt, ', code regions > 2 GiB apart' if far else ''))
             break
         if found >= found_limit:
             break
@@ -556,17 +573,6 @@ def run(chk):
         if outs[0] != outs[1] and 'CRASH' not in outs[0]:
             chk.finding('lazybb-far-code', dict(kind='ifaces', text=j['text'], specs=specs, calls=j['calls'], opt=j['opt'], outs=outs),
                         'lazy-BB generation with code regions > 2 GiB apart: %s' % outs[1][-160:])
-    # Witness of fixes/C03-5.patch (target_change_to_direct_calls writes NULL into the constant of an indirect call whose
-    # callee has no machine code yet; needs code regions > 2 GiB apart): run while the finding is listed as known; once the
-    # fix is in /repo the line of corpus/c03_far_nullcall.json belongs into corpus/c03_ifaces.jsonl (same format).
-    nullcall = os.path.join(vlib.VERIF, 'corpus', 'c03_far_nullcall.json')
-    if os.path.exists(nullcall) and any(sig == 'far-null-direct-call' for sig, _ in chk.known):
-        j = json.load(open(nullcall))
-        outs = run_prog(exe, write_prog(j['text'], 'nullcall'), j['specs'], j['calls'], j['opt'])
-        chk.count(('far-nullcall', j['text']), nontrivial=True, n=2)
-        if disagree(outs) is not None:
-            chk.finding('far-null-direct-call', dict(kind='ifaces', text=j['text'], specs=j['specs'], calls=j['calls'], opt=j['opt'], outs=outs),
-                        'eager link after a lazy link with code regions > 2 GiB apart: %s' % outs[1][-160:])
     # No site is exempt any more: the defect family the exemption was for is repaired in /repo (C01-16/18/20),
     # its witnesses (corpus/c03_open_O2.jsonl) are replayed as ordinary regression cases, and every generator
     # death is reported through chk.finding ('gen-died:<site>'), i.e. only KNOWN_FINDINGS.txt can list one.
@@ -604,7 +610,7 @@ def replay(chk, rp):
     p = write_prog(rp['text'], 'replay')
     if rp.get('steps'):
         steps = [tuple(st) for st in rp['steps']]
-        outs = run_hists(exe, p, [hist_ops(steps, True), hist_ops(steps)], rp.get('opt', 2))
+        outs = run_hists(exe, p, [hist_ops(steps, True), hist_ops(steps)], rp.get('opt', 2), far=rp.get('far', False))
         print(rp['text'])
         for s, o in zip((hist_ops(steps, True), hist_ops(steps)), outs):
             print('%s\n    -> %s' % (' ; '.join(s), o))
